@@ -9,7 +9,7 @@ EXPLANATION = (
     "Real overlap is rayon's doing (trusted: for_each over n <= idle-threads items is split to single items that idle workers steal). "
     "shred's obligations are structural and are exactly the suite-invisible mutants: (PAR) with feature `parallel`, Stage::execute runs "
     "groups only as items of rayon's for_each over par_iter_mut(groups), members inside; (ROUTE) SendDispatcher::dispatch calls "
-    "dispatch_par, whose install closure and the async job call execute, never execute_seq; (POOL) the receiver of install/spawn "
+    "dispatch_par, whose install closure and the async job call execute, never execute_seq, and Stage::execute is called nowhere but inside what is handed to the pool's install / spawn (decided in every caller, for private helpers in theirs); (POOL) the receiver of install/spawn "
     "originates from field thread_pool, add_pool stores its argument there, build/build_async fill the pool slot with create_thread_pool() only when it is empty "
     "and never overwrite a supplied pool, create_thread_pool is ThreadPoolBuilder::new().build() with no thread cap anywhere in the "
     "crate; (SHARE) add_batch gives the inner builder a clone of the outer pool slot before building it; (LOCK) only read locks are held "
@@ -27,6 +27,7 @@ def run(ctx, report):
             continue
         facts = ctx.facts(config)
         report.guard("C11.PAR", R.par_shape, ctx, report, "C11.PAR", facts, config)
+        report.guard("C11.PAR", R.execute_in_pool, ctx, report, "C11.PAR", facts, config)
         report.guard("C11.POOL", R.pool_source, ctx, report, "C11.POOL", facts, config)
         report.guard("C11.SHARE", R.pool_share, ctx, report, "C11.SHARE", facts, config)
         report.guard("C11.LOCK", R.lock, ctx, report, "C11.LOCK", facts, config)
